@@ -29,8 +29,10 @@ def scratch(name):
     return d
 
 
-def _java(xmx='3g', deque=False):
+def _java(xmx='3g', deque=False, gc_threads=None):
     cmd = ['java', '-Xss512m', '-Xmx' + xmx, '-XX:+UseParallelGC']
+    if gc_threads:
+        cmd.append('-XX:ParallelGCThreads=%d' % gc_threads)     # many single-worker JVMs run side by side
     if deque:
         cmd.append('-Dtlc2.tool.queue.IStateQueue=StateDeque')
     return cmd + ['-cp', JAR, 'tlc2.TLC']
@@ -123,7 +125,7 @@ def validate(module, traces, tables=None, shards=None, timeout=1800, extra_env=N
         files.append(fn)
 
     def one(k):
-        cmd = _java(xmx) + ['-workers', '1', '-metadir', os.path.join(d, 'states%d' % k),
+        cmd = _java(xmx, gc_threads=2) + ['-workers', '1', '-metadir', os.path.join(d, 'states%d' % k),
                             '-noGenerateSpecTE', '-config', cfg, module + '.tla']
         e = dict(os.environ)
         e['TRACE_FILE'] = files[k]
